@@ -727,7 +727,61 @@ def d_gated(rng):
     return src, ["gated", st]
 
 
-DESIGN_FAMILIES = [(d_expr, 5), (d_arith, 3), (d_mux, 3), (d_regs, 4), (d_array, 4), (d_hier, 2), (d_gated, 1)]
+def d_rampins(rng, force=None):
+    """inferred RAM (at / above the threshold of both RamConfigs) whose pins are fed DIRECTLY by things the
+    post-passes eliminate or alias: a hold-forever register with reset (never reassigned), a constant, a plain
+    register, or by a deep cone (mask logic deeper than the data path)."""
+    w = rng.choice([4, 8, 8, 16])
+    depth = rng.choice([1024 // w, 1024 // w + 2, 2048 // w])
+    aw = max(1, (depth - 1).bit_length())
+    kinds = ["hold", "const", "reg", "deep", "port"]
+    pick = force or {p_: rng.choice(kinds) for p_ in ("en", "addr", "data", "mask")}
+    masked = pick["mask"] != "port" or rng.random() < 0.5
+    style = rng.choice(["rmw", "bytes"]) if masked else "plain"
+    ports = ["    clk: input clock,", "    rst: input reset,", "    we: input logic,", "    waddr: input %s," % ty(aw),
+             "    wdata: input %s," % ty(w), "    raddr: input %s," % ty(aw), "    k: input %s," % ty(w), "    rdata: output %s," % ty(w)]
+    decl = ["    var mem: %s [%d];" % (ty(w), depth)]
+    ffs = []
+
+    def hold(name, width, val):
+        decl.append("    var %s: %s;" % (name, ty(width)))
+        ffs.append("    always_ff (clk, rst) {\n        if_reset {\n            %s = %s;\n        }\n    }" % (name, lit(width, val)))
+        return name
+
+    def reg(name, width, src):
+        decl.append("    var %s: %s;" % (name, ty(width)))
+        ffs.append("    always_ff (clk, rst) {\n        if_reset {\n            %s = '0;\n        } else {\n            %s = %s;\n        }\n    }" % (name, name, src))
+        return name
+    deep1 = "(^((k + wdata) ^ ((k & wdata) + {k[0] repeat %d})))" % w
+    deepw = "(((k + wdata) ^ (k - wdata)) + ((k & wdata) + (k | wdata)))"
+    en = {"hold": lambda: hold("h_en", 1, 1), "const": lambda: "1'b1", "reg": lambda: reg("q_en", 1, "we"),
+          "deep": lambda: "(we & %s)" % deep1, "port": lambda: "we"}[pick["en"]]()
+    abit = {"hold": lambda: hold("h_a", 1, rng.randrange(2)), "const": lambda: "1'b%d" % rng.randrange(2), "reg": lambda: reg("q_a", 1, "waddr[0]"),
+            "deep": lambda: deep1, "port": lambda: "waddr[0]"}[pick["addr"]]()
+    addr = "{waddr[%d:1], %s}" % (aw - 1, abit) if aw > 1 else abit
+    dbit = {"hold": lambda: hold("h_d", 1, 1), "const": lambda: "1'b1", "reg": lambda: reg("q_d", 1, "wdata[0]"),
+            "deep": lambda: deep1, "port": lambda: "wdata[0]"}[pick["data"]]()
+    data = "{wdata[%d:1], %s}" % (w - 1, dbit)
+    if style == "rmw":
+        m = {"hold": lambda: hold("h_m", w, (1 << w) - 2), "const": lambda: lit(w, 0x5a5a), "reg": lambda: reg("q_m", w, "k"),
+             "deep": lambda: deepw, "port": lambda: "k"}[pick["mask"]]()
+        wr = "if %s {\n            mem[%s] = (mem[%s] & ~%s) | (%s & %s);\n        }" % (en, addr, addr, m, data, m)
+    elif style == "bytes":
+        h = w // 2
+        b = {"hold": lambda: hold("h_b", 1, 1), "const": lambda: "1'b1", "reg": lambda: reg("q_b", 1, "k[0]"),
+             "deep": lambda: "(^%s)" % deepw, "port": lambda: "k[0]"}[pick["mask"]]()
+        decl.append("    var wa: %s;\n    assign wa = %s;\n    var wd: %s;\n    assign wd = %s;" % (ty(aw), addr, ty(w), data))
+        wr = ("if %s {\n            if %s {\n                mem[wa][%d:0] = wd[%d:0];\n            }\n            if k[1] {\n"
+              "                mem[wa][%d:%d] = wd[%d:%d];\n            }\n        }" % (en, b, h - 1, h - 1, w - 1, h, w - 1, h))
+    else:
+        wr = "if %s {\n            mem[%s] = %s;\n        }" % (en, addr, data)
+    body = "\n".join(decl) + "\n" + "\n".join(ffs) + ("\n" if ffs else "") + \
+        "    always_ff (clk) {\n        %s\n    }\n    assign rdata = mem[raddr];" % wr
+    src = "module Top (\n%s\n) {\n%s\n}\n" % ("\n".join(ports), body)
+    return src, ["rampins", style, "en=%s addr=%s data=%s mask=%s" % (pick["en"], pick["addr"], pick["data"], pick["mask"]), "bits=%d" % (w * depth)]
+
+
+DESIGN_FAMILIES = [(d_expr, 5), (d_arith, 3), (d_mux, 3), (d_regs, 4), (d_array, 4), (d_hier, 2), (d_gated, 1), (d_rampins, 5)]
 
 
 def gen_design(rng, family=None):
